@@ -4,6 +4,7 @@ import Gen
 import Proofs.RoundTrip
 import Proofs.Header
 import Proofs.WireRT
+import Proofs.ApiMsg
 /-!
   C01 — messages survive a wire round trip in both directions.
   API direction: proved at full strength (`C01_api_*`), for every dictionary, every header,
@@ -41,23 +42,8 @@ theorem C01_api_msg (d : DictFn) (m : Msg) (nreq nans : Nat)
     (hcmdr : d.cmdRules m.hdr.app m.hdr.cmd = some (nreq, nans))
     (hrules : (if isRequest m.hdr.flags then nreq else nans) ≠ 0)
     (hc : canonL m.avps = true) (ht : typedOkL (d.avpType m.hdr.app) m.avps = true) :
-    decodeMsg d m.enc = .ok { hdr := m.hdr, avps := wireL m.avps } := by
-  have hel := encL_length m.avps hc
-  have hhl := header_enc_length m.hdr
-  unfold decodeMsg Msg.enc
-  have h1 : ¬ (m.hdr.enc ++ encL m.avps).length < 20 := by simp [hhl]
-  simp only [h1, if_false]
-  rw [List.take_left' hhl, header_roundtrip m.hdr hv (by rw [hlen]; exact hsz) hf hcmd happ hh he]
-  simp only [hcmdr]
-  have hl20 : ¬ m.hdr.len < 20 := by rw [hlen, Msg.len]; omega
-  simp only [hl20, if_false]
-  rw [List.drop_left' hhl]
-  have htake : (encL m.avps).take (m.hdr.len - 20) = encL m.avps := by
-    apply List.take_of_length_le; rw [hlen, Msg.len, hel]; omega
-  rw [htake]
-  have hb : ¬ (encL m.avps).length < m.hdr.len - 20 := by rw [hlen, Msg.len, hel]; omega
-  simp only [hb, if_false, hrules]
-  rw [C01_api_avps (d.avpType m.hdr.app) m.avps hc ht (by rw [Msg.len] at hsz; omega)]
+    decodeMsg d m.enc = .ok { hdr := m.hdr, avps := wireL m.avps } :=
+  api_msg_rt d m nreq nans hv hf hcmd happ hh he hlen hsz hcmdr hrules hc ht
 
 /-! ### wire direction -/
 
